@@ -188,6 +188,12 @@ def evaluate(case, res):
     paused_now = set()
     for cno, step, actor, changes in hist.iterate():
         for table, id_, old, new in changes:
+            if table == trace.TASK and new is not None and old is not None \
+                    and new.get('state') == 'WAITING' and \
+                    old.get('state') not in (None, 'WAITING') and \
+                    new.get('state_info') == 'Task is waiting.' and \
+                    'reset_by_late_route' not in extra:
+                extra += ' reset_by_late_route'
             if table == trace.TASK and new is not None and \
                     new.get('state') == 'ERROR' and \
                     'Failed to' in (new.get('state_info') or '') and \
